@@ -189,7 +189,9 @@ fn conv(e: &Ev, pid: u64) -> Option<Value> {
 
 fn end_event(cell: &ActorCell, sent: usize) -> Value {
     json!({"a": "obs.end", "who": "drv", "obj": "", "d": 0, "t": 0, "x": "",
-           "fin": [{"x": "A", "st": cell.get_status() as i64, "kids": cell.get_children().len(), "sup": cell.try_get_supervisor().is_some(), "sent": sent}]})
+           "fin": [{"x": "A", "st": cell.get_status() as i64, "kids": cell.get_children().len(), "sup": cell.try_get_supervisor().is_some(), "sent": sent,
+                    "reg": cell.get_name().and_then(ractor::registry::where_is).map(|h| h.get_id() == cell.get_id()).unwrap_or(false),
+                    "named": cell.get_name().is_some(), "pg": false}], "q": 0})
 }
 
 struct Shared {
